@@ -1439,6 +1439,20 @@ fn run_ops(parser: &VHDLParser, text: &str, ops: &[String]) -> (String, String) 
     (dump.join(" "), format!("{}|{}", obs.join(";"), fin))
 }
 
+fn token_dump(parser: &VHDLParser, text: &str) -> String {
+    let source = Source::inline(Path::new("/c02ops.vhd"), text);
+    let contents = source.contents();
+    let tokenizer = Tokenizer::new(&parser.symbols, &source, ContentReader::new(&contents));
+    let mut d0: Vec<Diagnostic> = Vec::new();
+    let stream = TokenStream::new(tokenizer, &mut d0);
+    let mut dump = Vec::new();
+    while let Some(t) = stream.peek() {
+        dump.push(format!("{}@{}", kind_str(t.kind), fmt_range(t.pos.range())));
+        stream.skip();
+    }
+    dump.join(" ")
+}
+
 fn ops_case_line(text: &str, dump: &str, ops: &[String]) -> String {
     let cps: Vec<String> = text.chars().map(|c| (c as u32).to_string()).collect();
     format!("{}|{}|{}", cps.join(" "), dump, ops.join(";"))
@@ -1467,9 +1481,12 @@ fn ops_mode(seed: u64, n: usize, cases_out: &str, impl_out: &str) {
         // number of real tokens (newline words are no tokens)
         let ntok = text.split_whitespace().filter(|w| *w != "--" && *w != "c").count();
         let ops = gen_ops(&mut r, ntok);
-        let (dump, obs) = run_ops(&parser, &text, &ops);
-        writeln!(fc, "{}", ops_case_line(&text, &dump, &ops)).unwrap();
+        // the case line is flushed BEFORE the program runs: after a hang the last case line is the one in flight
+        writeln!(fc, "{}", ops_case_line(&text, &token_dump(&parser, &text), &ops)).unwrap();
+        fc.flush().unwrap();
+        let (_, obs) = run_ops(&parser, &text, &ops);
         writeln!(fi, "{}", obs).unwrap();
+        fi.flush().unwrap();
     }
 }
 
@@ -1483,13 +1500,15 @@ fn ops_file(cases_in: &str, impl_out: &str) {
         }
         let text: String = f[0].split_whitespace().map(|x| char::from_u32(x.parse().unwrap()).unwrap()).collect();
         let ops: Vec<String> = f[2].split(';').filter(|x| !x.is_empty()).map(|x| x.to_string()).collect();
-        let (dump, obs) = run_ops(&parser, &text, &ops);
         // the recorded token dump must still be what the tokenizer yields
+        let dump = token_dump(&parser, &text);
         if dump != f[1] {
             writeln!(fi, "DUMP-MISMATCH {}", dump).unwrap();
         } else {
+            let (_, obs) = run_ops(&parser, &text, &ops);
             writeln!(fi, "{}", obs).unwrap();
         }
+        fi.flush().unwrap();
     }
 }
 
